@@ -516,3 +516,11 @@ RULES = [
     ("C02.REEMIT", "run(): pre-computed output re-emitted to the right stream before the residual program", rule_reemit),
     ("C02.OPTSTATE", "vector-backed state obeys the same NaN rules as the default state", p_c01.rule_nan),
 ]
+
+
+def rule_guard(ctx, R):
+    from . import p_c10
+    return p_c10.rule_guard(ctx, R)
+
+
+RULES.append(("C02.GUARD", "pre-execution never pops from the I/O stacks: every pop below optimize() is dominated by index > 2 (shared with C10; a pop from stack 1/2 during optimisation ends the process)", rule_guard))
